@@ -3,6 +3,7 @@
 package main
 
 import (
+	"runtime/pprof"
 	"encoding/json"
 	"flag"
 	"fmt"
@@ -34,6 +35,7 @@ var (
 	flagLibGo    = flag.Bool("libgo", false, "the code under test starts goroutines: run every call into it as a simulator task, so that its goroutines are scheduled by the simulator too")
 	flagMaxRuns  = flag.Int("maxruns", 0, "exit (asking to be restarted) after this many runs in one process (0 = no limit)")
 	flagProgress = flag.String("progress", "", "file in which the index of the run in progress is kept (read by the driver if this process dies)")
+	flagSkip     = flag.String("skip", "", "ref mode: comma separated corpus indexes to leave out (they killed an earlier reference process)")
 	flagCands    = flag.String("candidates", "", "print one-step reductions of the scenario in this replay file, one JSON per line")
 )
 
@@ -162,6 +164,11 @@ var (
 )
 
 func abortHook(kind, detail string) {
+	if os.Getenv("SIM_DUMP") != "" {
+		// development aid: where is every goroutine?
+		fmt.Fprintln(os.Stderr, "ABORT", kind, detail)
+		pprof.Lookup("goroutine").WriteTo(os.Stderr, 2)
+	}
 	if kind != simrt.AbortDeadlock && kind != simrt.AbortStepCap && kind != simrt.AbortWatchdog {
 		// A limit of the simulator itself (task table, mutex table): no verdict.
 		emit(outRec{T: "note", Property: *flagProp, Seed: curSeed, Class: "harness-limit-" + kind, Detail: detail})
@@ -176,7 +183,7 @@ func abortHook(kind, detail string) {
 		detail = "no task can run:"
 		for i, s := range simrt.BlockedSites() {
 			if s >= 0 {
-				detail += fmt.Sprintf("\n  task %d is blocked (mutex, condition variable or wait group) at %s", i, siteName(s))
+				detail += fmt.Sprintf("\n  task %d is blocked (mutex, condition variable, wait group, channel or sleep) at %s", i, siteName(s))
 			}
 		}
 	}
@@ -242,6 +249,13 @@ func simCall(f func()) {
 			panic(r.Panic)
 		}
 	}
+}
+
+// simCallSafe is simCall for callers that expect f to have recovered every
+// panic itself: it reports (instead of re-raising) the one panic f cannot
+// recover, that of a goroutine the code under test started.
+func simCallSafe(f func()) (crashed bool, msg string) {
+	return protect(func() { simCall(f) })
 }
 
 var progressFile *os.File
